@@ -1950,6 +1950,14 @@ class Parallel(Logger):
                     )
                 raise RuntimeError(msg)
             self._running = True
+            # Create an ID that uniquely identifies the current call. If the
+            # previous call was interrupted early and the same instance is
+            # immediately reused, this id is used to prevent workers that were
+            # concurrently finalizing a task from the previous call to run the
+            # callback. It has to be renewed before the abort flags are reset
+            # below, otherwise such a callback would be taken for one of the
+            # new call.
+            self._call_id = uuid4().hex
 
         # Counter to keep track of the task dispatched and completed.
         self.n_dispatched_batches = 0
@@ -1992,13 +2000,7 @@ class Parallel(Logger):
             next(output)
             return output if self.return_generator else list(output)
 
-        # Let's create an ID that uniquely identifies the current call. If the
-        # call is interrupted early and that the same instance is immediately
-        # reused, this id will be used to prevent workers that were
-        # concurrently finalizing a task from the previous call to run the
-        # callback.
         with self._lock:
-            self._call_id = uuid4().hex
             # Batches that were sliced ahead by a previous call but never
             # dispatched (the call was aborted or its output generator was
             # closed early) must not be run as part of this call.
